@@ -70,8 +70,12 @@ def make_script(rng: random.Random, case: Dict[str, Any], n_calls: int) -> Dict[
                 value = rng.choice([0, 1, mask, rng.getrandbits(w), MAGIC64 & mask, rng.getrandbits(w) | (1 << (w - 1)),
                                     rng.choice(assigned) * w if assigned else 0, (1 << 70) + 5])
                 actions.append(['ww', a, value])
-            elif w >= 16 and in_seg((a & ~1) + 1):
-                op_bit = (a & ~1) * w
+            elif w >= 16 and in_seg((a if rng.random() < 0.3 else (a & ~1)) + 1):
+                # (the packed byte of the op at a bit address lives in the word after it: the address is usually an op's, i.e. an
+                # even word, but any word-aligned address is an address)
+                op_bit = (a if in_seg(a + 1) and rng.random() < 0.5 else (a & ~1)) * w
+                if not in_seg(op_bit // w + 1):
+                    continue
                 if kind < 0.88:
                     actions.append(['rb', op_bit])
                 else:
@@ -325,7 +329,7 @@ def gen_stream(rng: random.Random, w: int, mem_words: int) -> List[int]:
     ab = w // 8
     out: List[int] = []
     width, height = rng.choice([(1, 1), (2, 3), (4, 4), (8, 2), (3, 5), (16, 1)])
-    psize = rng.choice([0, 1, 2, 4, 16])
+    psize = rng.choice([0, 1, 2, 4, 16, 15, 14, 255, 256, 254])
 
     def addr_bytes(op_index: int) -> List[int]:
         a = op_index * 2 * w
@@ -356,7 +360,7 @@ def gen_stream(rng: random.Random, w: int, mem_words: int) -> List[int]:
                 rw_ += rng.choice([1, 2, 65535 - x])
             out += [4] + u16(x) + u16(y) + u16(rw_ & 0xFFFF) + u16(rh_) + addr_bytes(rng.randrange(max_op))
         elif r < 0.85:
-            out += [5] + [rng.getrandbits(8) for _ in range(width * height)]
+            out += [5] + [rng.choice([0xFF, 0x0F, 0xFE, 0x0E, rng.getrandbits(8)]) for _ in range(width * height)]
         elif r < 0.92:
             w2, h2 = rng.choice([(1, 2), (5, 1), (2, 2)])
             width, height = w2, h2
